@@ -332,6 +332,21 @@ fn encrypt_doc(doc: &mut Document, kind: &str, user: &str, owner: &str) -> Resul
                     permissions: Permissions::all(),
                 }
             }
+            // revision 6 (AES-256, Algorithm 2.B): one case in the thorough tier (a 2.B hash costs seconds in the extracted model)
+            "v5" => {
+                let mut cfs: BTreeMap<Vec<u8>, Arc<dyn CryptFilter>> = BTreeMap::new();
+                cfs.insert(b"StdCF".to_vec(), Arc::new(Aes256CryptFilter));
+                EncryptionVersion::V5 {
+                    encrypt_metadata: true,
+                    crypt_filters: cfs,
+                    file_encryption_key: &fek,
+                    stream_filter: b"StdCF".to_vec(),
+                    string_filter: b"StdCF".to_vec(),
+                    owner_password: owner,
+                    user_password: user,
+                    permissions: Permissions::all(),
+                }
+            }
             _ => {
                 let mut cfs: BTreeMap<Vec<u8>, Arc<dyn CryptFilter>> = BTreeMap::new();
                 cfs.insert(b"StdCF".to_vec(), Arc::new(Aes256CryptFilter));
